@@ -144,7 +144,11 @@ pub fn run(st: &mut State, op: &str, cmd: &Value) -> Value {
             };
             let idx: Vec<u16> = cmd["indices"].as_array().cloned().unwrap_or_default().iter().map(|x| x.as_u64().unwrap_or(0) as u16).collect();
             let e = guarded(|| {
-                let mut subs = m.lods[lod].parts[part].submeshes.clone();
+                // the caller's SubMesh values may come from any part of the model (they are only carriers of the ranges)
+                let mut subs = match cmd.get("subs_from") {
+                    Some(f) => m.lods[f[0].as_u64().unwrap_or(0) as usize].parts[f[1].as_u64().unwrap_or(0) as usize].submeshes.clone(),
+                    None => m.lods[lod].parts[part].submeshes.clone(),
+                };
                 for (i, s) in cmd["subs"].as_array().cloned().unwrap_or_default().iter().enumerate() {
                     if i < subs.len() {
                         subs[i].index_count = s[0].as_u64().unwrap_or(0) as u32;
